@@ -603,6 +603,14 @@ class Interp:
                             return ([],)
                         if isinstance(val, ast.Call) and isinstance(val.func, ast.Name) and val.func.id in ("dict", "list", "set") and not val.args and not val.keywords:
                             return ({} if val.func.id == "dict" else [] if val.func.id == "list" else set(),)
+                        # an initialiser computed from the object's other fields alone (self._capacity = len(self.array)): evaluated on
+                        # the object as it stands; anything that needs a constructor argument or leaves the fragment -> unknown field
+                        params = {a.arg for a in b.args.args[1:]} | {a.arg for a in b.args.kwonlyargs}
+                        if not any(isinstance(y, ast.Name) and y.id in params for y in ast.walk(val)):
+                            try:
+                                return (self.eval(val, Frame(m, {me: v})),)
+                            except (NotInFragment, _Raise):
+                                return None
                         return None
                     return None
         return None
